@@ -333,6 +333,12 @@ pub trait Reg: Sized + 'static {
     fn reserve(w: &mut Self::W, mask: u32, n: usize);
     fn entry_add(w: &mut Self::W, id: Id, comp: usize, p: u32) -> bool;
     fn entry_remove(w: &mut Self::W, id: Id, comp: usize) -> bool;
+    /// A sequence of add (0) / remove (1) / observe (2) steps through ONE `Entry` handle; returns
+    /// what the handle shows at every observe step, `None` if there is no entry.
+    fn entry_chain(w: &mut Self::W, id: Id, steps: &[(u8, u8, u32)]) -> Option<Vec<Vec<Option<Obs>>>>;
+    /// `Batch::new` with the given column lengths (one per component of the shape) + `extend`;
+    /// `None` if this shape has no ragged variant compiled. Panics when the library does.
+    fn extend_ragged(w: &mut Self::W, mask: u32, lens: &[usize], p: u32) -> Option<Vec<Id>>;
     fn snapshot(w: &mut Self::W) -> Vec<Row>;
     fn entry_snapshot(w: &mut Self::W, id: Id) -> Option<Vec<Option<Obs>>>;
     fn entries_snapshot(w: &mut Self::W, ids: &[Id]) -> Vec<Option<Vec<Option<Obs>>>>;
